@@ -110,6 +110,10 @@ def run_impl(c):
     if k == "cmp":
         from nitypes.scalar import Scalar
         a, b = Scalar(_num(c["v1"]), STRS[c["u1"]]), Scalar(_num(c["v2"]), STRS[c["u2"]])
+        # == is True iff values are equal and units identical: other extended properties take no part in it
+        for o, x in zip((a, b), c.get("xp", (None, None))):
+            if x is not None:
+                o.extended_properties["verif_note"] = x
         out = {"eq": bool(a == b), "ne": bool(a != b)}
         for name, f in (("lt", lambda: a < b), ("le", lambda: a <= b), ("gt", lambda: a > b), ("ge", lambda: a >= b)):
             out[name] = vf.try_impl(lambda: bool(f()))
@@ -281,6 +285,8 @@ def gen_cases(rng, tier):
             for (u1, u2) in ((0, 0), (1, 1), (1, 2), (0, 1)):
                 if big or rng.random() < 0.5:
                     cases.append({"k": "cmp", "v1": v1, "u1": u1, "v2": v2, "u2": u2})
+                    if rng.random() < 0.3:
+                        cases[-1]["xp"] = rng.choice([[1, 2], [1, None], [None, "x"], [3, 3]])
     for v in vals + [["o", "none"], ["o", "list"], ["o", "bytes"], ["o", "complex"]]:
         cases.append({"k": "sinit", "v": v})
     for _ in range(700 if not big else 6000):
